@@ -61,7 +61,7 @@ PLAIN = ['user_id', 'country', 'device_type', 'geo.city', 'Ünïcode', 'hour_of_
          'site-id-hash', 'Label', 'label2', 'xlabel', 'tab\there', "it's", 'f,g', 'ALL_CAPS', 'a.b.c']
 RETYPED = ['NA', 'null', 'nan', 'NaN', 'None', 'N/A', 'n/a', 'NULL', '<NA>', '#N/A', '1e5', '007', '12', '1.0', 'True', 'False', 'inf',
            '0x1A', ' 5', '3 ', '0', '1', '2', '3', '44', '1_000', '#NA']
-LABELS = ['label', 'y', 'target_col', 'click', 'L']
+LABELS = ['label', 'y', 'target_col', 'click', 'L', 'Churn?', 'y+', 'clicked(7d)', 'a|b', 'label.1', 'is_fraud*', '[y]', 'y$', '^y', 'cost{usd}', 'back\\slash']
 
 
 def is_mi(h):
